@@ -17,6 +17,9 @@ ROLE_PATTERNS = [
     ("NOOVERRIDE", re.compile(r"^all\(\(?\w+\.get_target_override_mode\(\) == ActionOverrideMode\.NONE for \w+ in transition\.actions\)?\)$")),
     ("INDIRECT", re.compile(r"^F:INDIRECT_START_PTR$")),
     ("MAYSKIP", re.compile(r"ACTION_MAY_SKIP")),
+    # set in the action loop: an emitted action may (or always does) send the machine to another state, so the skip label is a live join
+    # (meaning re-derived on every run by tbrows.check_leaves_flag; the enumerator reports a loop-assigned flag as `<name>@afterloop`)
+    ("LEAVES", re.compile(r"^leaves_for_elsewhere(@afterloop)?$")),
 ]
 
 
@@ -77,7 +80,7 @@ class TBPath:
             return "unknown"
         if self.get("FROM_END") is True:
             return "end_nonfall"
-        if self.get("INSTATES") is True:
+        if self.get("INSTATES") is True or self.get("LEAVES") is True:
             return "consume"
         if self.get("INSTATES") is False:
             return "terminating"
